@@ -90,6 +90,9 @@ var (
 )
 
 func init() {
+	// generated programs may double a string in nested loops: under the default limit (2 GiB) one such run
+	// allocates gigabytes per clone. Solo and concurrent runs see the same limit (set once, before any VM runs).
+	tengo.MaxStringLen, tengo.MaxBytesLen = 1<<20, 1<<20
 	tengo.VerifProbe = func(v *tengo.VM, fn *tengo.CompiledFunction, ip, sp, bp, fi int, allocs int64) {
 		if yieldMod > 0 && (ip*31+sp*7+fi)%yieldMod == yieldPh {
 			runtime.Gosched()
